@@ -117,7 +117,7 @@ def key_of(path):
     return re.sub(r'/\d+', '', path).strip('/')
 
 
-def cycle(spec, cfg, tmp, ncycles=4, origin=None, read_function=None):
+def cycle(spec, cfg, tmp, ncycles=4, origin=None, read_function=None, record=False):
     """run the oracle on one case; returns (violations, info). `origin` = (path, meshfilename) of a shipped file
     replaces build(spec)."""
     import t2data as T
@@ -145,8 +145,13 @@ def cycle(spec, cfg, tmp, ncycles=4, origin=None, read_function=None):
             wkw = {}
             cfg = dict(cfg, xp=list(A.extra_precision), echo=A.echo_extra_precision)
         want = O.canon(spec, cfg)
+        events = info.setdefault('events', [])
+        before = O.dump(A) if record else None
         call_real('write1', A.write, str(dirs[0] / MAIN), mesh_arg(cfg, dirs[0]), **wkw)
         F = [files_of(dirs[0])]
+        if record:
+            events.append(dict(op='write', obj=before, wkw=wkw, mesh=cfg['mesh'], files=dict(F[0]),
+                               after=(list(A._sections), list(A.extra_precision), bool(A.echo_extra_precision))))
         if origin is None:
             sec_all = expected_sections(spec, cfg)
             sec_main = main_file_sections(sec_all, spec, cfg)
@@ -154,8 +159,11 @@ def cycle(spec, cfg, tmp, ncycles=4, origin=None, read_function=None):
             sec_all = list(A._sections)
             sec_main = main_file_sections(sec_all, spec, cfg)
         info['sections'] = sec_main
-        if cfg.get('permute') and origin is None and len(sec_main) > 2:
-            order = permuted(sec_main, cfg, cfg.get('pseed', 0))
+        if (cfg.get('permute') or cfg.get('order')) and origin is None and len(sec_main) > 2:
+            if cfg.get('order'):
+                order = [k for k in cfg['order'] if k in sec_main] + [k for k in sec_main if k not in cfg['order']]
+            else:
+                order = permuted(sec_main, cfg, cfg.get('pseed', 0))
             text = F[0][MAIN].decode('latin-1')
             head, blocks, end = split_main(text, sec_main)
             new = '\n'.join(head + sum((blocks[k] for k in order), []) + [end]) + '\n'
@@ -168,17 +176,23 @@ def cycle(spec, cfg, tmp, ncycles=4, origin=None, read_function=None):
         prev = A
         for i in range(1, ncycles):
             B = call_real('read%d' % i, T.t2data, str(dirs[i - 1] / MAIN), mesh_arg(cfg, dirs[i - 1]), **kw)
+            dB = O.dump(B) if (record or i <= 2) else None
+            if record and i <= 2:
+                events.append(dict(op='read', dir=str(dirs[i - 1]), mesh=cfg['mesh'], obj=dB, fortran=read_function is not None))
             if i <= 2:
-                got = O.normalise_dump(O.dump(B))
+                got = O.normalise_dump(dB)
                 for path, w, g in O.diff(want, got)[:6]:
                     V('content:' + key_of(path), 'after %d write/read cycle(s) %s is %r, written %r' % (i, path, g, w))
-                d = O.dump(B)
+                d = dB
                 if not all(d['registry'].values()):
                     V('registry', 'lookup dictionaries of the re-read object do not match its lists: %r' % d['registry'])
                 if list(B._sections) != want_sections:
                     V('sections', 'sections of the re-read object are %r, the file holds %r' % (list(B._sections), want_sections))
             call_real('write%d' % (i + 1), B.write, str(dirs[i] / MAIN), mesh_arg(cfg, dirs[i]), **wkw)
             F.append(files_of(dirs[i]))
+            if record and i <= 2:
+                events.append(dict(op='write', obj=dB, wkw=wkw, mesh=cfg['mesh'], files=F[i],
+                                   after=(list(B._sections), list(B.extra_precision), bool(B.echo_extra_precision))))
             a, b = F[i - 1], F[i]
             if sorted(a) != sorted(b):
                 V('files', 'cycle %d wrote files %s, the previous one %s' % (i + 1, sorted(b), sorted(a)))
